@@ -50,6 +50,18 @@ var outParams = map[string]OutParam{
 	"httphelper.HttpRequest":         {2, false},
 }
 
+// lookupOutParam: the table above, plus the schema decoder `X.Decoder().Decode(target, form)`, which writes
+// the decoded form through its first argument.
+func lookupOutParam(callee string) (OutParam, bool) {
+	if op, ok := outParams[callee]; ok {
+		return op, true
+	}
+	if strings.HasSuffix(callee, ".Decoder().Decode") {
+		return OutParam{0, false}, true
+	}
+	return OutParam{}, false
+}
+
 type FuncSpec struct {
 	File      string            // path relative to repo root
 	Name      string            // Go name, "Recv.Name" for methods
@@ -64,6 +76,7 @@ type FuncSpec struct {
 	LetIf     bool              // style: `if C { v.F = e }` -> `let v := if C then {v with F := e} else v` (instead of duplicating the continuation)
 	ValueOnly bool              // the theorems concern the returned VALUE only: append to a caller's slice is read functionally (aliasing is C20's subject)
 	RetParam  string            // RetErr function that mutates this pointer parameter: `return nil` yields its final value
+	ErrWins   bool              // RetValErr: `return v, err` with a non-zero v AND an error is the error (every caller drops v when err != nil)
 	// Writer: name of the http.ResponseWriter parameter. The Lean twin threads it as a value (an effect log):
 	// every call that mentions it (or whose callee is listed in Effectful) returns the new writer first -
 	// `W` for a void callee, `W × Go.R T` for an error-returning one - and so does the function itself.
@@ -157,7 +170,8 @@ func ignorableCall(c *ast.CallExpr) bool {
 	case strings.HasSuffix(s, "Tracer.Start"), strings.HasSuffix(s, "tracer.Start"), s == "span.End", strings.HasPrefix(s, "logger."),
 		strings.HasSuffix(s, ".Debug"), strings.HasSuffix(s, ".Info"), strings.HasSuffix(s, ".Error") && strings.Contains(s, "ogger"),
 		s == "span.RecordError", s == "span.SetStatus",
-		strings.Contains(s, "Logger()."), s == "r.WithContext", s == "logging.FromContext":
+		strings.Contains(s, "Logger()."), s == "r.WithContext", s == "logging.FromContext",
+		s == "context.WithTimeout", s == "context.WithCancel", s == "context.WithDeadline", s == "cancel":
 		return true
 	}
 	return false
@@ -225,7 +239,8 @@ var pkgMap = map[string]string{
 	"strings.TrimSuffix": "Go.trimSuffix", "strings.TrimPrefix": "Go.trimPrefix",
 	"str.Contains": "Go.contains", "bytes.Equal": "Go.bytesEqual",
 	"oidc.FromTime": "Go.fromTime", "FromTime": "Go.fromTime",
-	"time.Time{}":    "Go.zeroTime",
+	"time.Time{}": "Go.zeroTime",
+	"errors.Is":   "Go.errorsIs", "context.DeadlineExceeded": "Const.DeadlineExceeded", "context.Canceled": "Const.Canceled",
 	"http.SetCookie": "Http.SetCookie", "http.Redirect": "Http.Redirect", "http.Error": "Http.Error",
 	"http.StatusFound": "Http.StatusFound", "http.StatusUnauthorized": "Http.StatusUnauthorized",
 }
@@ -583,7 +598,7 @@ func (t *tr) okPattern(call ast.Expr, v string) string {
 	if ix, ok := fun.(*ast.IndexExpr); ok {
 		fun = ix.X
 	}
-	op, ok := outParams[exprString(fun)]
+	op, ok := lookupOutParam(exprString(fun))
 	if !ok || op.Index >= len(c.Args) {
 		return v
 	}
@@ -621,7 +636,7 @@ func (t *tr) args(as []ast.Expr) string {
 
 func (t *tr) argsOf(callee string, as []ast.Expr) string {
 	var out []string
-	op, hasOp := outParams[callee]
+	op, hasOp := lookupOutParam(callee)
 	for i, a := range as {
 		if isCtxArg(a) || t.dropped(a) {
 			continue
@@ -1017,6 +1032,9 @@ func (t *tr) ret0(r *ast.ReturnStmt) string {
 			}
 			return "(.ok (" + t.spec.WrapBoth + " " + t.expr(r.Results[0]) + " " + t.errValue(r.Results[1]) + "))"
 		}
+		if t.spec.ErrWins {
+			return "(.error " + t.errValue(r.Results[1]) + ")"
+		}
 		return t.bad("return of value and error", r)
 	case RetVal:
 		if len(r.Results) > 1 {
@@ -1104,6 +1122,21 @@ func isErrNotNil(e ast.Expr) bool {
 	l, ok1 := b.X.(*ast.Ident)
 	r, ok2 := b.Y.(*ast.Ident)
 	return ok1 && ok2 && l.Name == "err" && r.Name == "nil"
+}
+
+// isErrorsIsGuard: `if errors.Is(err, E) { …; return … }` (no init, no else, body ends in a return). errors.Is(nil, E) is
+// false, so such a guard only fires in the error branch of the preceding call.
+func isErrorsIsGuard(s ast.Stmt) bool {
+	ifs, ok := s.(*ast.IfStmt)
+	if !ok || ifs.Init != nil || ifs.Else != nil || len(ifs.Body.List) == 0 {
+		return false
+	}
+	c, ok := ifs.Cond.(*ast.CallExpr)
+	if !ok || exprString(c.Fun) != "errors.Is" || len(c.Args) != 2 || exprString(c.Args[0]) != "err" {
+		return false
+	}
+	_, isRet := ifs.Body.List[len(ifs.Body.List)-1].(*ast.ReturnStmt)
+	return isRet
 }
 
 // block translates stmts; k is the already translated continuation ("" = none: falling off the
@@ -1215,6 +1248,11 @@ func (t *tr) block(stmts []ast.Stmt, k cont) string {
 				}
 				return "(" + ctor + " " + t.args(c.Args) + ")"
 			}
+			// the handler's one response write: httphelper.MarshalJSON(w, v)  ->  let written := v
+			// (a RetErr handler with RetParam "written" yields the written value on `return nil`)
+			if exprString(c.Fun) == "httphelper.MarshalJSON" && len(c.Args) == 2 && t.spec.RetParam == "written" {
+				return "let written := " + t.expr(c.Args[1]) + ";\n" + t.pad() + rest()
+			}
 			// mutator method on a model value: recv.SetX(a)  ->  let recv := recv.SetX a
 			if sel, ok := c.Fun.(*ast.SelectorExpr); ok && strings.HasPrefix(sel.Sel.Name, "Set") {
 				if id, ok := sel.X.(*ast.Ident); ok {
@@ -1304,6 +1342,33 @@ func (t *tr) block(stmts []ast.Stmt, k cont) string {
 				return rest()
 			}
 			if ok && len(stmts) > 1 {
+				// optional classification of the error first: `if errors.Is(err, E) { return … }` (any number), then `if err != nil`
+				nc := 0
+				for 1+nc < len(stmts) && isErrorsIsGuard(stmts[1+nc]) {
+					nc++
+				}
+				if nc > 0 && 1+nc < len(stmts) {
+					if ifs, ok := stmts[1+nc].(*ast.IfStmt); ok && ifs.Init == nil && isErrNotNil(ifs.Cond) && ifs.Else == nil {
+						v := exprString(x.Lhs[0])
+						if v == "_" {
+							v = "_"
+						} else {
+							v = t.ident(v)
+						}
+						cont := memo(func() string { return t.block(stmts[2+nc:], k) })
+						t.indent++
+						saved := t.errInScope
+						t.errInScope = true
+						errBranch := t.block(ifs.Body.List, cont)
+						for i := nc; i >= 1; i-- {
+							g := stmts[i].(*ast.IfStmt)
+							errBranch = "(if " + t.expr(g.Cond) + " then " + t.block(g.Body.List, nil) + " else " + errBranch + ")"
+						}
+						t.errInScope = saved
+						t.indent--
+						return "(match " + t.expr(call) + " with\n" + t.pad() + "| .error err => " + errBranch + "\n" + t.pad() + "| .ok " + t.okPattern(call, v) + " =>\n" + t.pad() + cont() + ")"
+					}
+				}
 				if ifs, ok := stmts[1].(*ast.IfStmt); ok && ifs.Init == nil && isErrNotNil(ifs.Cond) && ifs.Else == nil {
 					v, post := t.bindTarget(x.Lhs[0])
 					cont := memo(func() string { return t.block(stmts[2:], k) })
@@ -1371,7 +1436,7 @@ func (t *tr) block(stmts []ast.Stmt, k cont) string {
 		}
 		if len(x.Lhs) == 1 && len(x.Rhs) == 1 {
 			// v.F = e   ->   let v := { v with F := e }
-			if sel, ok := x.Lhs[0].(*ast.SelectorExpr); ok && t.spec.LetIf {
+			if sel, ok := x.Lhs[0].(*ast.SelectorExpr); ok && (t.spec.LetIf || (t.spec.PlainUpdate && x.Tok == token.ASSIGN)) {
 				if id, ok := sel.X.(*ast.Ident); ok {
 					v := t.ident(id.Name)
 					return "let " + v + " := { " + v + " with " + sel.Sel.Name + " := " + t.expr(x.Rhs[0]) + " };\n" + t.pad() + rest()
